@@ -26,7 +26,12 @@ def run(model, tier):
         "power with a parameter-dependent exponent in the similarity functions is positive on the range of v that is used -- clamped, a "
         "positive multiple of v, or identically (vstar - v)/(vstar - v2) with v and v2 on the same side of vstar by the constructor's "
         "choice of range -- so density and pressure are positive products and no fractional power of a negative number occurs. "
-        "Compressive shocks, monotone fans and the Su-Olson ordering are numeric and not decided.")
+        "Riemann solvers (sa/rules/c17_pattern.py): every shock is compressive for all inputs because each wave-pattern threshold of "
+        "RiemannIGEOS.driver makes the root equations of both neighbouring patterns vanish identically at the initial pressure of the "
+        "side whose wave changes kind, the pattern with the shock on that side is selected for the smaller ur, and each branch solves "
+        "the root equation of the pattern its soln_type names; RiemannGenEOS.driver reads isentrope tables for px < p_side and Hugoniot "
+        "tables for px > p_side of the same side. "
+        "Shocks of other solvers, monotone fans and the Su-Olson ordering are numeric and not decided.")
     res.rule_text = 'instance = one averaged quantity of the transition cell'
     res.trusted_base = ['CPython ast', 'NF engine']
     fi = model.get_func(FN)
@@ -175,4 +180,7 @@ def run(model, tier):
                             % (q, src_of(first[q])[:40] + ' = ...'), line=first[q].lineno, construct=src_of(first[q])))
     from . import c17_sedov
     c17_sedov.sedov_bases(model, res)
+    from . import c17_pattern
+    c17_pattern.boundaries(model, res)
+    c17_pattern.geneos_branches(model, res)
     return res
